@@ -10,7 +10,7 @@ random points; rows, backlog length and pending deliveries equal after EVERY eve
 What is proved here is function level + concrete trees; the propagation over ALL trees is decided by the
 tree stream and its monitors (see docs/C10.md).
 -/
-import Mistral.Lemmas.Tree
+import Mistral.Lemmas.TreePause
 
 namespace Mistral.Props.C10Tree
 open Mistral Mistral.Tree
@@ -118,5 +118,47 @@ theorem pause_subtree_full_fails :
     execution either (needs the re-check of repo patch 20) -/
 theorem resume_request_is_good (c : Cfg) (w : World) (a : Nat) : Good w (step c w (.resume a)) :=
   good_step c w (.resume a)
+
+
+/-- "Pause creates no new tasks", for ALL definitions, trees and states, lifted to `step`: under every event
+    except the resume command and the scheduled `_on_action_update` job of a with-items child (the two that can
+    resume an execution) — i.e. under every delivery, action result, child result, completion check, start
+    message, stop and pause command incl. its propagation — an execution that is PAUSED stays PAUSED (or is
+    completed by a stop) and NO task row of it is created. -/
+theorem no_task_created_while_paused (c : Cfg) (w : World) (ev : Event) (i : Nat) (e : Exec)
+    (hq : QuietEv ev = true) (he : w.execs[i]? = some e) (hp : e.state = .PAUSED) :
+    (∃ e', (step c w ev).execs[i]? = some e' ∧ (e'.state = .PAUSED ∨ isCompleted e'.state = true)) ∧
+    (∀ (t : Nat) (tk' : Task), (step c w ev).tasks[t]? = some tk' → tk'.wf = i →
+       ∃ tk, w.tasks[t]? = some tk ∧ tk.wf = i) := by
+  have hg := quiet_step c w ev hq
+  have hb : blocked e.state = true := by rw [hp]; decide
+  constructor
+  · obtain ⟨e', he', hf⟩ := hg.execs i e he
+    refine ⟨e', he', ?_⟩
+    have := hf hb
+    revert this
+    cases e'.state <;> simp [blocked, isPausedOrCompleted, isPaused, isCompleted, Gen.States.pausedStates,
+      Gen.States.completedStates]
+  · intro t tk' ht hwf
+    cases hw : w.tasks[t]? with
+    | none =>
+      have := hg.fresh t tk' ht hw e (by rw [hwf]; exact he)
+      rw [this] at hb; exact absurd hb (by simp)
+    | some tk =>
+      obtain ⟨tk'', h'', a1⟩ := hg.tasks t tk hw
+      rw [ht] at h''; cases h''
+      exact ⟨tk, rfl, by rw [← a1]; exact hwf⟩
+
+/-- the same along any list of such events -/
+theorem no_task_created_while_paused_run (c : Cfg) (evs : List Event) (hq : ∀ ev, ev ∈ evs → QuietEv ev = true) :
+    ∀ (w : World), Quiet w (evs.foldl (step c) w) := by
+  induction evs with
+  | nil => intro w; exact Quiet.refl w
+  | cons ev evs ih =>
+    intro w
+    exact (quiet_step c w ev (hq ev (by simp))).trans (ih (fun e he => hq e (by simp [he])) _)
+
+/-- non-vacuity: the root is PAUSED and the action result of the leaf's task arrives: nothing is created -/
+example : QuietEv (.deliver (.rpcStartTask 2 true)) = true := rfl
 
 end Mistral.Props.C10Tree
